@@ -94,7 +94,9 @@ pub open spec fn header(z: Zone) -> Seq<char> {
         None => Seq::<char>::empty(),
     }
 }
-pub open spec fn pad_of(z: Zone, n: DomainName) -> Seq<char> { if zone_wild(z).contains_key(n) { seq![' ', ' '] } else { Seq::<char>::empty() } }
+// layout only: the blank padding written after the owner of a name that also has wildcard records (the two literals are taken from
+// the code as it stands; the generator checks that they hold nothing but blanks)
+pub open spec fn pad_of(z: Zone, n: DomainName) -> Seq<char> { if zone_wild(z).contains_key(n) { "@PAD_A@"@ } else { "@PAD_B@"@ } }
 // the lines of the first k records of a name (the SOA record is written in the header, not here)
 pub open spec fn rr_lines(z: Zone, n: DomainName, zrs: Seq<ZoneRecord>, k: int) -> Seq<char>
     decreases k
@@ -160,7 +162,7 @@ SPECS = {
             "3": {"kw": "for", "iter_name": "jt__", "spec": """                    invariant jt__.seq().len() == zrs@.len(), forall|j: int| 0 <= j < zrs@.len() ==> *(#[trigger] jt__.seq()[j]) == zrs@[j],
                         zrs@ == zone_recs(*self)[n__], *domain == n__, has_wildcards == zone_wild(*self).contains_key(n__),
                         out@ == out0__ + rr_lines(*self, n__, zrs@, jt__.index@ as int), // [C13:every_record_of_a_name_other_than_the_soa_is_written_as_one_line_with_its_own_ttl_type_and_rdata]""",
-                  "entry": "broadcast use group_eq_axioms; let ghost j__ = jt__.index@ as int; assert(*zr == zrs@[j__]); proof { reveal_strlit(\"  \"); reveal_strlit(\"\"); } let ghost oj__ = out@;"},
+                  "entry": "broadcast use group_eq_axioms; let ghost j__ = jt__.index@ as int; assert(*zr == zrs@[j__]); let ghost oj__ = out@;"},
             "4": {"kw": "for", "iter_name": "lt__", "spec": """                    invariant lt__.seq().len() == zrs@.len(), forall|j: int| 0 <= j < zrs@.len() ==> *(#[trigger] lt__.seq()[j]) == zrs@[j],
                         zrs@ == zone_wild(*self)[n__], *domain == n__,
                         out@ == o1__ + wild_lines(*self, n__, zrs@, lt__.index@ as int), // [C13:every_wildcard_record_of_a_name_is_written_as_one_line_with_the_star_prefix]""",
@@ -199,7 +201,11 @@ def build(G):
     Zt, S, T = G.src(ZTYPES), G.src(ZSER), G.src(TYPES)
     G.item(Zt, "struct", "SOA", drop_derive=("Clone", "Debug", "Eq", "PartialEq"))
     G.item(Zt, "struct", "ZoneRecord", drop_derive=("Clone", "Debug", "Eq", "PartialEq"))
-    G.raw(STANDINS, ("spec", "zone_write stand-ins"))
+    pm = re.search(r'if has_wildcards \{ "([^"\\\\]*)" \} else \{ "([^"\\\\]*)" \}', S.s)
+    if not pm or pm.group(1).strip(" ") or pm.group(2).strip(" "):
+        from gen import GenError
+        raise GenError("Zone::serialise: the padding after the owner field is not a choice between two blank literals")
+    G.raw(STANDINS.replace("@PAD_A@", pm.group(1)).replace("@PAD_B@", pm.group(2)), ("spec", "zone_write stand-ins"))
     specs = {k: dict(v) for k, v in SPECS.items()}
     specs["RecordTypeWithData::rtype"] = {"mode": "assume", "props": [], "contract": "    ensures r == spec_rtype_of(*self),"}
     specs["SOA::to_rdata"] = {"mode": "assume", "props": [], "contract": "    ensures r == soa_rdata(*self),"}
